@@ -112,7 +112,9 @@ def run(repo: Repo, rep: Report, tier: str) -> None:
                 if dynamic:
                     rep.ok("R4.2", sub, f"emits {lits}: `{kw}` carries the {what} parameters when there are any", fn.loc())
                 else:
-                    rep.violation("R4.2", sub, f"{fn.fq}|literal-none|{kw}",
+                    # identity: the class that emits the call (a private helper the block is moved into is the same defect)
+                    owner = f"{mod.name}:{fn.cls.name}" if fn.cls is not None else fn.fq
+                    rep.violation("R4.2", sub, f"{owner}|literal-none|{kw}",
                                   f"every request template of this function passes the literal `{kw}=None`: {what} parameters that are in the signature are "
                                   "never sent (operations with several request content types)", fn.loc())
     rep.require(n_req >= 2, f"R4.2: only {n_req} functions emitting the transport call found (floor 2)")
@@ -184,6 +186,10 @@ def run(repo: Repo, rep: Report, tier: str) -> None:
         if fn is None:
             raise AnalysisError(f"anchor vanished: {label}")
         sans = sorted({(dotted(c.func) or "").split(".")[-1] for c in calls_in(fn.node, include_nested_defs=True) if (dotted(c.func) or "").startswith("NameSanitizer.sanitize_")})
+        site_names = {f.name for f in sites.values() if f is not None and f is not fn}
+        if not sans and any(isinstance(c.func, ast.Attribute) and c.func.attr in site_names for c in calls_in(fn.node)):
+            rep.ok("R4.6", f"{label} path-variable sanitizer", "delegates the URL construction to another checked site", fn.loc())
+            continue
         if sans == ["sanitize_method_name"]:
             rep.ok("R4.6", f"{label} path-variable sanitizer", "sanitize_method_name", fn.loc())
         else:
